@@ -2,8 +2,8 @@ package props
 
 import (
 	"fmt"
-	"go/ast"
 	"go/constant"
+	"go/token"
 	"go/types"
 	"sort"
 	"strings"
@@ -27,195 +27,214 @@ func c07(p *core.Program, r *core.Report) {
 	// ---- rule 1: type names
 	const r1 = "type-name-table"
 	r.Rule(r1, "the GeoJSON type string written by encode for each Go geometry type, the constructor chosen by Decode for each type string, and the RFC 7946 section 1.4 names agree (7 names, both directions)", 14)
-	efd, epkg := p.DeclOf(rel, "encode")
-	dfd, dpkg := p.DeclOf(rel, "(*Geometry).Decode")
-	if efd == nil || dfd == nil {
-		r.Lost(r1, rel+".encode/Decode", "anchor lost")
-	} else {
-		enc := map[string]string{} // go type -> name
-		for _, sw := range eng.Switches(epkg, efd.Body) {
-			if !sw.IsType {
-				continue
-			}
-			for _, c := range sw.Clauses {
-				if c.Keys[0].Default {
-					continue
-				}
-				name := ""
-				for _, st := range c.Body {
-					ast.Inspect(st, func(n ast.Node) bool {
-						cl, ok := n.(*ast.CompositeLit)
-						if !ok || namedTypeName(epkg.TypesInfo.TypeOf(cl)) != "Geometry" {
-							return true
-						}
-						for _, el := range cl.Elts {
-							if kv, ok := el.(*ast.KeyValueExpr); ok {
-								if k, ok := kv.Key.(*ast.Ident); ok && k.Name == "Type" {
-									if v := eng.ConstOf(epkg.TypesInfo, kv.Value); v != nil && v.Kind() == constant.String {
-										name = constant.StringVal(v)
-									}
-								}
-							}
-						}
-						return true
-					})
-				}
-				for _, k := range c.Keys {
-					enc[eng.TypeShort(k.Type)] = name
-				}
-			}
+	samePkg := func(f *ssa.Function) bool { return core.FnPkgPath(f) == mod+"/"+rel }
+	efn := mustFn(p, r, r1, rel, "encode")
+	dfn := mustFn(p, r, r1, rel, "(*Geometry).Decode")
+	isTypeField := func(a ssa.Value) bool {
+		fa, ok := a.(*ssa.FieldAddr)
+		if !ok {
+			return false
 		}
-		dec := map[string]string{}
-		for _, sw := range eng.Switches(dpkg, dfd.Body) {
-			if sw.IsType || sw.Tag == nil || !strings.HasSuffix(sw.TagStr, ".Type") {
-				continue
-			}
-			for _, c := range sw.Clauses {
-				for _, k := range c.Keys {
-					if k.Default || k.Const == nil || k.Const.Kind() != constant.String {
-						continue
-					}
-					tys := map[string]bool{}
-					for _, ret := range c.Returns {
-						if len(ret.Types) == 0 || ret.Types[0] == nil {
-							continue
-						}
-						t := ret.Types[0]
-						if tup, ok := t.(*types.Tuple); ok && tup.Len() > 0 {
-							t = tup.At(0).Type()
-						}
-						if b, ok := t.(*types.Basic); ok && b.Kind() == types.UntypedNil {
-							continue
-						}
-						tys[eng.TypeShort(t)] = true
-					}
-					var l []string
-					for t := range tys {
-						l = append(l, t)
-					}
-					sort.Strings(l)
-					dec[constant.StringVal(k.Const)] = strings.Join(l, "|")
-				}
-			}
+		pt, ok := fa.X.Type().Underlying().(*types.Pointer)
+		if !ok || namedTypeName(pt.Elem()) != "Geometry" {
+			return false
 		}
+		st, ok := pt.Elem().Underlying().(*types.Struct)
+		return ok && st.Field(fa.Field).Name() == "Type"
+	}
+	if efn != nil && dfn != nil {
 		var names []string
 		for n := range rfc7946Types {
 			names = append(names, n)
 		}
 		sort.Strings(names)
+		// encoder: evaluate encode with g bound to each dynamic type; read the constant stored to Geometry.Type
+		gIdx := 0
 		for _, n := range names {
 			gt := rfc7946Types[n]
-			r.Check(enc[gt] == n, r1, rel+".encode/"+gt, p.Pos(efd.Pos()), true, "encoded as "+n, fmt.Sprintf("%s is encoded with type %q; RFC 7946 says %q", gt, enc[gt], n))
-			r.Check(dec[n] == gt, r1, rel+".Decode/"+n, p.Pos(dfd.Pos()), true, "decoded to "+gt, fmt.Sprintf("type %q is decoded to %q; the encoder and RFC 7946 pair it with %s", n, dec[n], gt))
+			dyn := geomPtrType(p, strings.TrimPrefix(gt, "*geom."))
+			ev := &eng.ConstEval{Inline: samePkg}
+			ev.Override = func(fn *ssa.Function, v ssa.Value, args []eng.CVal) (eng.CVal, bool) {
+				if c, ok := v.(*ssa.Call); ok && len(args) > 0 && args[0].K == eng.CType && eng.CalleeObj(c) != nil && !samePkg2(c, rel) {
+					return eng.Top, true
+				}
+				return eng.CVal{}, false
+			}
+			args := make([]eng.CVal, len(efn.Params))
+			for i := range args {
+				args[i] = eng.Top
+			}
+			args[gIdx] = eng.DynV(dyn)
+			top := ev.RunStable(efn, args)
+			got := map[string]bool{}
+			eng.WalkReached(top, func(act *eng.CEResult, in ssa.Instruction) {
+				if st, ok := in.(*ssa.Store); ok && isTypeField(st.Addr) {
+					if c, isC := st.Val.(*ssa.Const); isC && c.Value != nil && c.Value.Kind() == constant.String {
+						got[constant.StringVal(c.Value)] = true
+					} else {
+						got["?"] = true
+					}
+				}
+			})
+			r.Check(len(got) == 1 && got[n], r1, rel+".encode/"+gt, p.Pos(efn.Pos()), true, "encoded as "+n, fmt.Sprintf("%s is encoded with type %v; RFC 7946 says %q", gt, sortedKeysB(got), n))
 		}
-		for n, t := range dec {
-			if _, ok := rfc7946Types[n]; !ok {
-				r.Bad(r1, rel+".Decode/"+n, p.Pos(dfd.Pos()), "decoder accepts type name "+n+" (-> "+t+") that RFC 7946 does not define")
+		// decoder: evaluate Decode with g.Type bound to each name; read off the constructors reached
+		decode := func(name string) map[string]bool {
+			ev := &eng.ConstEval{Inline: samePkg}
+			ev.Override = func(fn *ssa.Function, v ssa.Value, args []eng.CVal) (eng.CVal, bool) {
+				if ld, ok := v.(*ssa.UnOp); ok && ld.Op == token.MUL && isTypeField(ld.X) {
+					return eng.ConstV(constant.MakeString(name)), true
+				}
+				return eng.CVal{}, false
+			}
+			top := ev.RunStable(dfn, nil)
+			got := map[string]bool{}
+			eng.WalkReached(top, func(act *eng.CEResult, in ssa.Instruction) {
+				c, ok := in.(*ssa.Call)
+				if !ok {
+					return
+				}
+				f := c.Call.StaticCallee()
+				if f != nil && strings.HasPrefix(f.Name(), "New") && core.FnPkgPath(f) == mod && f.Signature.Recv() == nil {
+					got["*geom."+strings.TrimSuffix(ctorType(f.Name()), "Empty")] = true
+				}
+			})
+			return got
+		}
+		for _, n := range names {
+			gt := rfc7946Types[n]
+			got := decode(n)
+			r.Check(len(got) == 1 && got[gt], r1, rel+".Decode/"+n, p.Pos(dfn.Pos()), true, "decoded to "+gt, fmt.Sprintf("type %q is decoded to %v; the encoder and RFC 7946 pair it with %s", n, sortedKeysB(got), gt))
+		}
+		for _, n := range []string{"", "point", "POINT", "LinearRing", "Feature", "Circle"} {
+			if got := decode(n); len(got) > 0 {
+				r.Bad(r1, rel+".Decode/"+n, p.Pos(dfn.Pos()), fmt.Sprintf("decoder accepts type name %q (-> %v) that RFC 7946 does not define for geometries", n, sortedKeysB(got)))
 			}
 		}
 	}
 
 	// ---- rule 2: layout guess and bbox tables
 	const r2 = "layout-guess-table"
-	r.Rule(r2, "guessLayout0 maps ordinate count {0,1 -> error, 2 -> XY, 3 -> XYZ, 4 -> XYZM, n -> Layout(n)}; decodeBBox maps {4 -> XY, 6 -> XYZ, else error}; encodeBBox emits 4 numbers for XY/XYM and 6 for XYZ/XYZM in min...,max... order", 8)
+	r.Rule(r2, "CONSTEVAL: guessLayout0 evaluated with len(coords0) bound to n returns {0,1 -> error, 2 -> XY, 3 -> XYZ, 4 -> XYZM, 7 -> Layout(7)}; decodeBBox with len(bb) bound reaches NewBounds(XY) for 4, NewBounds(XYZ) for 6 and returns an error without building a box for every other length; encodeBBox with b.Layout() bound emits Min(0),Min(1),Max(0),Max(1) for XY/XYM and Min(0..2),Max(0..2) for XYZ/XYZM", 8)
 	ln := layoutNames(p)
-	if fd, pkg := p.DeclOf(rel, "guessLayout0"); fd != nil {
-		rows := map[int64]string{}
-		def := ""
-		for _, sw := range eng.Switches(pkg, fd.Body) {
-			for _, c := range sw.Clauses {
-				res := "?"
-				if len(c.Returns) == 1 && len(c.Returns[0].Results) == 2 {
-					r0, r1e := c.Returns[0].Results[0], c.Returns[0].Results[1]
-					if types.ExprString(r1e) != "nil" {
-						res = "error"
-					} else if v, ok := eng.ConstInt64(eng.ConstOf(pkg.TypesInfo, r0)); ok {
-						res = ln[v]
-					} else {
-						res = types.ExprString(r0)
-					}
-				}
-				for _, k := range c.Keys {
-					if k.Default {
-						def = res
-					} else if v, ok := eng.ConstInt64(k.Const); ok {
-						rows[v] = res
-					}
+	lenBound := func(n int64) func(fn *ssa.Function, v ssa.Value, args []eng.CVal) (eng.CVal, bool) {
+		return func(fn *ssa.Function, v ssa.Value, args []eng.CVal) (eng.CVal, bool) {
+			if c, ok := v.(*ssa.Call); ok {
+				if b, isB := c.Call.Value.(*ssa.Builtin); isB && b.Name() == "len" && isFloatSlice(c.Call.Args[0].Type()) {
+					return eng.IntV(n), true
 				}
 			}
+			return eng.CVal{}, false
 		}
-		want := map[int64]string{0: "error", 1: "error", 2: "XY", 3: "XYZ", 4: "XYZM"}
-		for n := int64(0); n <= 4; n++ {
-			r.Check(rows[n] == want[n], r2, fmt.Sprintf("%s.guessLayout0/%d", rel, n), p.Pos(fd.Pos()), true, fmt.Sprintf("%d ordinates -> %s", n, rows[n]), fmt.Sprintf("%d ordinates are guessed as %q, want %s", n, rows[n], want[n]))
-		}
-		r.Check(def == "geom.Layout(n)", r2, rel+".guessLayout0/default", p.Pos(fd.Pos()), true, "n > 4 -> Layout(n)", "more than four ordinates are guessed as "+def)
-	} else {
-		r.Lost(r2, rel+".guessLayout0", "anchor lost")
 	}
-	evenOnly := false
-	if fd, pkg := p.DeclOf(rel, "decodeBBox"); fd != nil {
-		rows := map[int64]string{}
-		defErr := false
-		for _, sw := range eng.Switches(pkg, fd.Body) {
-			for _, c := range sw.Clauses {
-				for _, k := range c.Keys {
-					if k.Default {
-						defErr = len(c.Returns) == 1 && types.ExprString(c.Returns[0].Results[1]) != "nil"
-						continue
-					}
-					kv, _ := eng.ConstInt64(k.Const)
-					for _, a := range c.Assigns {
-						if v, ok := eng.ConstInt64(a.Const); ok && namedTypeQual(a.Type) == mod+".Layout" {
-							rows[kv] = ln[v]
+	if fn := mustFn(p, r, r2, rel, "guessLayout0"); fn != nil {
+		want := map[int64]string{0: "error", 1: "error", 2: "XY", 3: "XYZ", 4: "XYZM", 7: "Layout(7)"}
+		for _, n := range []int64{0, 1, 2, 3, 4, 7} {
+			ev := &eng.ConstEval{Inline: samePkg, Override: lenBound(n)}
+			res := ev.RunStable(fn, nil)
+			got := "?"
+			if res.Ret.K == eng.CTuple && len(res.Ret.Tup) == 2 {
+				switch {
+				case res.Ret.Tup[1].K == eng.CType:
+					got = "error"
+				case res.Ret.Tup[1].K == eng.CNil:
+					if k, ok := res.Ret.Tup[0].Int(); ok {
+						if name, known := ln[k]; known {
+							got = name
+						} else {
+							got = fmt.Sprintf("Layout(%d)", k)
 						}
 					}
 				}
 			}
+			r.Check(got == want[n], r2, fmt.Sprintf("%s.guessLayout0/%d", rel, n), p.Pos(fn.Pos()), true, fmt.Sprintf("%d ordinates -> %s", n, got), fmt.Sprintf("%d ordinates are guessed as %s, want %s", n, got, want[n]))
 		}
-		ok := rows[4] == "XY" && rows[6] == "XYZ" && len(rows) == 2 && defErr
-		evenOnly = ok
-		r.Check(ok, r2, rel+".decodeBBox", p.Pos(fd.Pos()), true, "bbox of 4 -> XY, 6 -> XYZ, anything else is an error", fmt.Sprintf("bbox length table is %v (default is error: %v)", rows, defErr))
-	} else {
-		r.Lost(r2, rel+".decodeBBox", "anchor lost")
 	}
-	if fd, pkg := p.DeclOf(rel, "encodeBBox"); fd != nil {
-		ok := true
-		why := ""
-		seen := map[string]bool{}
-		for _, sw := range eng.Switches(pkg, fd.Body) {
-			for _, c := range sw.Clauses {
-				if c.Keys[0].Default || len(c.Returns) != 1 {
-					continue
-				}
-				cl, isCL := c.Returns[0].Results[0].(*ast.CompositeLit)
-				if !isCL {
-					continue
-				}
-				var seq []string
-				for _, el := range cl.Elts {
-					seq = append(seq, types.ExprString(el))
-				}
-				got := strings.Join(seq, ",")
-				for _, k := range c.Keys {
-					kv, _ := eng.ConstInt64(k.Const)
-					name := ln[kv]
-					seen[name] = true
-					want := "b.Min(0),b.Min(1),b.Max(0),b.Max(1)"
-					if name == "XYZ" || name == "XYZM" {
-						want = "b.Min(0),b.Min(1),b.Min(2),b.Max(0),b.Max(1),b.Max(2)"
+	evenOnly := false
+	if fn := mustFn(p, r, r2, rel, "decodeBBox"); fn != nil {
+		rows := map[int64]string{}
+		okErr := true
+		for _, n := range []int64{0, 1, 2, 3, 4, 5, 6, 7, 8, 12} {
+			ev := &eng.ConstEval{Inline: samePkg, Override: lenBound(n)}
+			top := ev.RunStable(fn, nil)
+			eng.WalkReached(top, func(act *eng.CEResult, in ssa.Instruction) {
+				if c, ok := in.(*ssa.Call); ok {
+					if f := c.Call.StaticCallee(); f != nil && f.Name() == "NewBounds" && len(c.Call.Args) == 1 {
+						if k, isK := act.Of(c.Call.Args[0]).Int(); isK {
+							rows[n] = ln[k]
+						} else {
+							rows[n] = "?"
+						}
 					}
-					if got != want {
-						ok, why = false, fmt.Sprintf("bbox of %s is emitted as [%s], RFC 7946 section 5 wants [%s]", name, got, want)
-					}
+				}
+			})
+			if _, built := rows[n]; !built {
+				if !(top.Ret.K == eng.CTuple && len(top.Ret.Tup) == 2 && top.Ret.Tup[1].K == eng.CType) {
+					okErr = false
 				}
 			}
 		}
-		if !(seen["XY"] && seen["XYM"] && seen["XYZ"] && seen["XYZM"]) {
-			ok, why = false, "not all of XY, XYM, XYZ, XYZM are handled"
+		ok := rows[4] == "XY" && rows[6] == "XYZ" && len(rows) == 2 && okErr
+		evenOnly = ok
+		r.Check(ok, r2, rel+".decodeBBox", p.Pos(fn.Pos()), true, "bbox of 4 -> XY, 6 -> XYZ, anything else is an error", fmt.Sprintf("bbox length table is %v (other lengths return an error: %v)", rows, okErr))
+	}
+	if fn := mustFn(p, r, r2, rel, "encodeBBox"); fn != nil {
+		ok, why := true, ""
+		for _, name := range []string{"XY", "XYM", "XYZ", "XYZM"} {
+			var lv int64
+			for k, n := range ln {
+				if n == name {
+					lv = k
+				}
+			}
+			ev := &eng.ConstEval{Inline: samePkg}
+			ev.Override = func(f *ssa.Function, v ssa.Value, args []eng.CVal) (eng.CVal, bool) {
+				if c, isC := v.(*ssa.Call); isC {
+					if o := eng.CalleeObj(c); o != nil && o.Name() == "Layout" && o.Pkg() != nil && o.Pkg().Path() == mod {
+						return eng.IntV(lv), true
+					}
+				}
+				return eng.CVal{}, false
+			}
+			top := ev.RunStable(fn, nil)
+			seq := map[int64]string{}
+			eng.WalkReached(top, func(act *eng.CEResult, in ssa.Instruction) {
+				st, isSt := in.(*ssa.Store)
+				if !isSt {
+					return
+				}
+				ia, isIA := st.Addr.(*ssa.IndexAddr)
+				if !isIA {
+					return
+				}
+				k, isK := eng.ConstInt(ia.Index)
+				c, isCall := st.Val.(*ssa.Call)
+				if !isK || !isCall {
+					return
+				}
+				o := eng.CalleeObj(c)
+				if o == nil || (o.Name() != "Min" && o.Name() == "Max" && false) {
+					return
+				}
+				if o.Name() == "Min" || o.Name() == "Max" {
+					if d, isD := act.Of(c.Call.Args[len(c.Call.Args)-1]).Int(); isD {
+						seq[k] = fmt.Sprintf("%s(%d)", o.Name(), d)
+					}
+				}
+			})
+			var got []string
+			for k := int64(0); k < int64(len(seq)); k++ {
+				got = append(got, seq[k])
+			}
+			want := "Min(0),Min(1),Max(0),Max(1)"
+			if name == "XYZ" || name == "XYZM" {
+				want = "Min(0),Min(1),Min(2),Max(0),Max(1),Max(2)"
+			}
+			if strings.Join(got, ",") != want {
+				ok, why = false, fmt.Sprintf("bbox of %s is emitted as [%s], RFC 7946 section 5 wants [%s]", name, strings.Join(got, ","), want)
+			}
 		}
-		r.Check(ok, r2, rel+".encodeBBox", p.Pos(fd.Pos()), true, "min...,max... with Z only for XYZ/XYZM", why)
-	} else {
-		r.Lost(r2, rel+".encodeBBox", "anchor lost")
+		r.Check(ok, r2, rel+".encodeBBox", p.Pos(fn.Pos()), true, "min...,max... with Z only for XYZ/XYZM", why)
 	}
 
 	// ---- rule 3: no explicit panic reachable from the decoders
@@ -246,24 +265,31 @@ func c07(p *core.Program, r *core.Report) {
 	// ---- rule 4: no nil member can enter a decoded collection
 	const r4 = "no-nil-members"
 	r.Rule(r4, "every call of (*Geometry).Decode whose result can reach GeometryCollection.Push has a receiver that cannot be nil (the address of a local or element value): Decode returns (nil, nil) for a nil receiver, and a nil member makes Layout/Bounds/Empty/Marshal panic later", 1)
-	if fn := mustFn(p, r, r4, rel, "(*Geometry).Decode"); fn != nil {
+	if dec := mustFn(p, r, r4, rel, "(*Geometry).Decode"); dec != nil {
+		// every function of the package that pushes members into a collection (Decode itself, or a helper its
+		// GeometryCollection arm was moved into)
 		n := 0
-		pushes := false
-		for _, c := range eng.Calls(fn) {
-			if o := eng.CalleeObj(c); o != nil && o.Name() == "Push" {
-				pushes = true
+		for _, fn := range pkgFuncs(p, rel) {
+			pushes := false
+			for _, c := range eng.Calls(fn) {
+				if o := eng.CalleeObj(c); o != nil && o.Name() == "Push" {
+					pushes = true
+				}
 			}
-		}
-		for _, c := range eng.Calls(fn) {
-			if c.Common().StaticCallee() != fn {
+			if !pushes {
 				continue
 			}
-			n++
-			key := fmt.Sprintf("%s/recursive-Decode#%d", short(fn), n)
-			recv := c.Common().Args[0]
-			_, isAlloc := recv.(*ssa.Alloc)
-			_, isIA := recv.(*ssa.IndexAddr)
-			r.Check(!pushes || isAlloc || isIA, r4, key, p.Pos(c.Pos()), true, "receiver is the address of a value: never nil", "a member geometry is decoded through a pointer that may be nil ("+recv.String()+"): JSON null in \"geometries\" yields a nil member in the collection")
+			for _, c := range eng.Calls(fn) {
+				if c.Common().StaticCallee() != dec {
+					continue
+				}
+				n++
+				key := fmt.Sprintf("%s/member-Decode#%d", short(fn), n)
+				recv := c.Common().Args[0]
+				_, isAlloc := recv.(*ssa.Alloc)
+				_, isIA := recv.(*ssa.IndexAddr)
+				r.Check(isAlloc || isIA, r4, key, p.Pos(c.Pos()), true, "receiver is the address of a value: never nil", "a member geometry is decoded through a pointer that may be nil ("+recv.String()+"): JSON null in \"geometries\" yields a nil member in the collection")
+			}
 		}
 	}
 
@@ -314,4 +340,10 @@ func c07(p *core.Program, r *core.Report) {
 
 	r.Assume("numeric round trip of ordinates, what an independent RFC 7946 reader understands beyond type names and bbox order, and id normalisation semantics are not decided")
 	r.Assume("implicit panics inside encoding/json are out of scope; coordinate nesting depth per type is enforced by the Go type checker (SetCoords parameter types)")
+}
+
+// samePkg2: the call's static callee is declared in module package rel.
+func samePkg2(c *ssa.Call, rel string) bool {
+	f := c.Call.StaticCallee()
+	return f != nil && core.FnPkgPath(f) == mod+"/"+rel
 }
